@@ -507,8 +507,10 @@ class Gen(object):
                 seq = [e] * ne
             else:
                 seq = [rng.choice(ERROR_NAMES[:3]) for _ in range(ne)]
+            nomsg = rng.random() < 0.12      # an error reply that carries no errorMessage (Error Output without Cause)
             for x in seq:
-                outcomes.append({"err": x, "msg": "msg-%s-%s" % (fn, x), "delay": rng.choice(self.p["delays"])})
+                outcomes.append({"err": x, "msg": None if nomsg else "msg-%s-%s" % (fn, x),
+                                 "delay": rng.choice(self.p["delays"])})
                 if x not in errs:
                     errs.append(x)
             if rng.random() < 0.7:
